@@ -87,6 +87,8 @@ pub(super) fn latest_timestamp_file(
     rotate: bool,
     fmt: &InfixFormat,
 ) -> DateTime<Local> {
+    #[cfg(flexi_logger_verif)]
+    use crate::verif_hooks::Local;
     if rotate {
         Local::now()
     } else {
